@@ -562,6 +562,18 @@ def batt_restore_sweep(ctx, desc, battery=None, max_k=None):
         r = batt_restore_probe(ctx, desc, k, base["battery"], base["batt"], base["cutoff"])
         if r is not None:
             out.append(r)
+    # a FRESH battery: the model's first probe returns exactly the voltage and impedance the Source is declared with (the same battery
+    # re-scaled, no further random draw) - the restore must not depend on what the probe happened to return (seeded change C17-K)
+    s = next((c for c in desc["comps"] if c["kind"] == "source" and c["name"] == base["source"]), None)
+    vo = s["args"].get("vo", 0.0) if s else 0.0
+    if isinstance(vo, (int, float)) and not isinstance(vo, bool) and vo > 0 and base["batt"]["v0"] > 0:
+        f = float(vo) / base["batt"]["v0"]
+        fresh = dict(base["batt"], v0=float(vo), vend=base["batt"]["vend"] * f, rs0=float(s["args"].get("rs", 0.0)))
+        for k in [None, 1, "solver"]:
+            r = batt_restore_probe(ctx, desc, k, base["battery"], fresh, base["cutoff"] * f)
+            if r is not None:
+                r["fresh_battery"] = True
+                out.append(r)
     return out
 
 
